@@ -17,6 +17,8 @@ VERIF = os.path.dirname(os.path.dirname(os.path.abspath(__file__)))
 sys.path.insert(0, os.path.join(VERIF, "tools"))
 COQ = os.path.join(VERIF, "coq")
 WORK = os.path.join(VERIF, "work")
+# an alternative copy of the harness (path deps pointing at a scratch worktree) can be selected for experiments
+HARNESS = os.environ.get("VERIF_HARNESS_DIR", os.path.join(VERIF, "harness"))
 NPROC = 16
 
 ALLOWED_AXIOMS = {
@@ -44,7 +46,10 @@ class Violation(Exception):
 def check_proofs(P, ev):
     """Build the Coq development, re-check the property file, gate on assumptions/hygiene."""
     problems = []
-    rc, out = sh("make coq JOBS=%d" % NPROC, timeout=3000)
+    targets = [P.COQ_PROP[:-2] + ".vo"]
+    if os.path.exists(os.path.join(COQ, "Refuted", os.path.basename(P.COQ_PROP))):
+        targets.append("Refuted/" + os.path.basename(P.COQ_PROP)[:-2] + ".vo")
+    rc, out = sh("make coq JOBS=%d COQTARGETS='%s'" % (NPROC, " ".join(targets)), timeout=3000)
     if rc != 0:
         tail = "\n".join(out.splitlines()[-25:])
         problems.append("Coq build failed:\n" + tail)
@@ -52,7 +57,10 @@ def check_proofs(P, ev):
     # hygiene: nothing admitted, no axioms declared, no checker switches
     bad = re.compile(r"\b(Admitted|admit|Axiom|Axioms|Parameter|Parameters|Conjecture|Admit Obligations|Unset Guard Checking|"
                      r"bypass_check|Unset Positivity Checking|Unset Universe Checking|type-in-type|impredicative-set)\b")
-    for f in glob.glob(os.path.join(COQ, "**", "*.v"), recursive=True):
+    hyg_files = []
+    for d in P.COQ_DIRS + ["Properties", "Refuted", "Extract"]:
+        hyg_files += glob.glob(os.path.join(COQ, d, "*.v"))
+    for f in hyg_files:
         txt = open(f).read()
         txt_nc = re.sub(r"\(\*.*?\*\)", "", txt, flags=re.S)  # strip comments
         for m in bad.finditer(txt_nc):
@@ -117,10 +125,10 @@ def check_proofs(P, ev):
 # ----------------------------------------------------------------------------- runners
 def build_runners(P):
     problems = []
-    rc, out = sh("make modelrun", timeout=1200)
+    rc, out = sh("make modelrun MODEL=%s" % P.MODEL, timeout=1200)
     if rc != 0:
         problems.append("model runner build failed:\n" + "\n".join(out.splitlines()[-20:]))
-    rc, out = sh("cargo build --offline 2>&1", cwd=os.path.join(VERIF, "harness"), timeout=3000)
+    rc, out = sh("cargo build --offline --bin %s 2>&1" % P.IMPL, cwd=HARNESS, timeout=3000)
     if rc != 0:
         errs = [l for l in out.splitlines() if l.startswith("error")][:10]
         problems.append("implrun does not build against /repo's working tree:\n" + "\n".join(errs or out.splitlines()[-20:]))
@@ -163,7 +171,7 @@ def run_sharded(cmd, lines, tag, timeout=3000):
 
 
 def impl_cmd(P):
-    return os.path.join(VERIF, "harness", "target", "debug", "implrun") + " " + P.IMPL
+    return os.path.join(HARNESS, "target", "debug", P.IMPL)
 
 
 def model_cmd(P):
